@@ -201,6 +201,12 @@ std::optional<sqf::runtime::fileio::pathinfo> sqf::fileio::impl_default::get_inf
 {
     log(logmessage::fileio::ResolvePhysicalRequested(current.physical, current.virtual_, viewVirtual));
 
+    // Cleanse the request the way get_info_virtual does
+    auto request = std::string(viewVirtual);
+    std::replace(request.begin(), request.end(), '\\', '/');
+    request = std::string(sqf::runtime::util::trim(request));
+    viewVirtual = request;
+
     std::filesystem::path toFindPath(viewVirtual);
     toFindPath = toFindPath.lexically_normal();
     if (toFindPath.is_relative() || (viewVirtual.size() > 3 && (viewVirtual.substr(0, 3) == "../"sv || viewVirtual.substr(0, 3) == "..\\"sv)))
